@@ -225,6 +225,8 @@ class World:
             names = {}
             for i, pth in enumerate(self.PIDREF):
                 names.setdefault(pth, []).append(("pid", self.pids[i]))
+            for j, pth in enumerate(self.CIDREF):
+                names.setdefault(pth, []).append(("cid", self.cids[j]))
             for i in range(self.NP):
                 for f in range(self.NF):
                     names.setdefault(self.META[i][f], []).append(("pid,format", self.pids[i], self.eff[f]))
